@@ -26,7 +26,7 @@ Init0 ==
   [ sent |-> Empty, arrived |-> Empty, got |-> Empty, returned |-> Empty,
     closeOut |-> {}, closeIn |-> Empty, lclosing |-> {}, lclosed |-> {},
     eofSeen |-> {}, errSeen |-> Empty, observed |-> {}, asked |-> {},
-    downSeen |-> {}, pending |-> Empty, lateErr |-> {}, drainFail |-> {}, cbSet |-> {}, wantEnd |-> {}, endCount |-> Empty, cbFailed |-> {},
+    lastOut |-> {}, bodyEnded |-> {}, downSeen |-> {}, pending |-> Empty, lateErr |-> {}, drainFail |-> {}, cbSet |-> {}, wantEnd |-> {}, endCount |-> Empty, cbFailed |-> {},
     cutSide |-> {}, exited |-> {}, joined |-> {}, ids |-> {}, table |-> Empty,
     ctx |-> Empty, bad |-> "" ]
 
@@ -42,6 +42,10 @@ Closing(st, E) == Get(st.closeIn, E, "") # "" \/ E \in st.lclosing \/ DownFor(st
 DeliverOK(st, E, tok) ==
   LET a == SeqOf(st.arrived, E) n == Len(SeqOf(st.got, E)) IN n < Len(a) /\ a[n + 1] = tok
 
+\* a callback channel whose object was dropped (CHANNEL_LAST_MESSAGE went out) and whose remote execution has ended, but
+\* neither a close frame nor the endmarker ever came (known finding: the peer does not send CHANNEL_CLOSE in "sendonly" state)
+DroppedNoClose(st) == {X \in st.lastOut \cap st.cbSet : X[2] \in st.bodyEnded /\ Get(st.closeIn, X, "") = "" /\ Nat0(st.endCount, X) = 0}
+
 Step0(st, e) ==
   LET S == e.side
       E == <<e.side, e.chan>>
@@ -53,6 +57,7 @@ Step0(st, e) ==
            LET s1 == [st EXCEPT !.sent = Put(@, E, Append(SeqOf(st.sent, E), e.tok))] IN
            IF E \in st.closeOut THEN Flag(s1, "C03.data-frame-after-own-close-frame") ELSE s1
         ELSE IF e.op \in {"5", "6"} THEN [st EXCEPT !.closeOut = @ \cup {E}]
+        ELSE IF e.op = "7" THEN [st EXCEPT !.lastOut = @ \cup {E}]
         ELSE IF e.op = "2" THEN [st EXCEPT !.exited = @ \cup {S}]
         ELSE st
     [] e.ev = "fin" ->
@@ -69,6 +74,7 @@ Step0(st, e) ==
         ELSE st
     [] e.ev = "cut" -> [st EXCEPT !.cutSide = @ \cup {S}]
     [] e.ev = "down" -> [st EXCEPT !.downSeen = @ \cup {S}]
+    [] e.ev = "body_end" -> [st EXCEPT !.bodyEnded = @ \cup {e.chan}]
     [] e.ev = "deq" ->
         IF e.tok = -1 THEN st
         ELSE LET s1 == [st EXCEPT !.got = Put(@, E, Append(SeqOf(st.got, E), e.tok))] IN
@@ -183,7 +189,8 @@ Step0(st, e) ==
         ELSE [st EXCEPT !.table = Put(@, S, e.tok)]
     [] e.ev = "ret" -> st
     [] e.ev = "stuck" ->
-        IF st.drainFail # {} THEN Flag(st, "C07.callback-error-during-setcallback-drain-not-reported")
+        IF DroppedNoClose(st) # {} THEN Flag(st, "C10.dropped-callback-channel-never-closed-by-the-peer")
+        ELSE IF st.drainFail # {} THEN Flag(st, "C07.callback-error-during-setcallback-drain-not-reported")
         ELSE IF st.cutSide # {} THEN Flag(st, "C04.blocked-forever-after-connection-loss")
         ELSE Flag(st, "GEN.blocked-forever")
     [] e.ev = "died" -> Flag(st, "GEN.thread-died")
@@ -192,7 +199,8 @@ Step0(st, e) ==
             missedErr == {X \in eps : Get(st.closeIn, X, "") = "error" /\ X \in st.asked /\ Nat0(st.errSeen, X) = 0}
             missedEnd == {X \in st.wantEnd : (Get(st.closeIn, X, "") # "" \/ DownFor(st, X[1])) /\ Nat0(st.endCount, X) # 1}
             missedCb  == {X \in st.cbSet \ st.cbFailed : Get(st.closeIn, X, "") # "" /\ SeqOf(st.got, X) # SeqOf(st.arrived, X)}
-        IN IF "w" \in st.cutSide /\ "w" \notin st.downSeen THEN Flag(st, "C11.worker-did-not-wind-down-after-its-connection-ended")
+        IN IF DroppedNoClose(st) # {} THEN Flag(st, "C10.dropped-callback-channel-never-closed-by-the-peer")
+           ELSE IF "w" \in st.cutSide /\ "w" \notin st.downSeen THEN Flag(st, "C11.worker-did-not-wind-down-after-its-connection-ended")
            ELSE IF missedErr \ st.lateErr # {} THEN Flag(st, "C07.remote-error-swallowed")
            ELSE IF missedErr # {} THEN Flag(st, "C07.remote-error-swallowed-after-last-message")
            ELSE IF missedEnd # {} THEN Flag(st, "C10.endmarker-missing")
